@@ -64,6 +64,46 @@ def plantedMismatch (I : MajorInst) (k : String → Nat) : List (Mut × Rat × R
       I.gene.hasCoverage a.name pos && !(a.func.any fun ma => ma.pos == pos && !ma.isIns))
     if I.observed (refMut pos) = e then none else some (refMut pos, I.observed (refMut pos), e))
 
+namespace MajorInst
+
+/-! ### major stage, spec level: the documented score of an allele multiset -/
+
+def absQ (x : Rat) : Rat := if x < 0 then -x else x
+
+/-- some called copy carries the core variant `m` -/
+def carriedB (I : MajorInst) (k : String → Nat) (m : Mut) : Bool :=
+  I.alleles.any fun a => a.func.contains m && decide (0 < k a.name)
+
+/-- observed core variants that no called copy carries: they must be flagged novel -/
+def novelOf (I : MajorInst) (k : String → Nat) : List Mut := I.funcMuts.filter fun m => !carriedB I k m
+
+def carriersCount (I : MajorInst) (k : String → Nat) (m : Mut) : Rat :=
+  plantedSum k (I.alleles.filter fun a => a.func.contains m)
+
+def refCount (I : MajorInst) (k : String → Nat) (pos : Int) : Rat :=
+  plantedSum k (I.alleles.filter fun a =>
+    I.gene.hasCoverage a.name pos && !(a.func.any fun ma => ma.pos == pos && !ma.isIns))
+
+/-- **the documented score** of calling `k a` copies of every candidate allele `a`: absolute
+difference between observed and called copies for every observed core variant (a variant nobody
+carries is called once, as novel) and every reference row, plus the novelty penalties -/
+def specMajor (I : MajorInst) (k : String → Nat) : Rat :=
+  (I.funcMuts.map fun m => absQ (I.observed m - (I.carriersCount k m + (if carriedB I k m then 0 else 1)))).sum +
+  (I.positions.map fun pos => absQ (I.observed (refMut pos) - I.refCount k pos)).sum +
+  I.majorNovel * (if (I.novelOf k).isEmpty then 0 else 1) +
+  Const.MAJOR_NOVEL_EACH * ((I.novelOf k).length : Rat)
+
+/-- `k` is an admissible decision of the major model: it fits and fills the structure and leaves
+at most one uncarried non-insertion variant per site -/
+def admissibleB (I : MajorInst) (k : String → Nat) : Bool :=
+  (I.alleles.all fun a => decide (k a.name ≤ max 1 (I.cn.count a.cnConfig))) &&
+  (I.cn.solution.all fun cc =>
+      decide (plantedSum k (I.alleles.filter fun a => a.cnConfig == cc.1) = (cc.2 : Rat))) &&
+  (I.positions.all fun pos =>
+      decide (((I.novelOf k).filter fun m => m.pos == pos && !m.isIns).length ≤ 1))
+
+end MajorInst
+
 /-! ### minor stage -/
 
 namespace MinorInst
